@@ -267,7 +267,23 @@ func C12(c *core.Ctx) {
 		if ferr != nil {
 			// conflict / not-found scenarios: the bracket structure still has to hold, but the model is
 			// built from a successful run — skip (C03 covers their result)
-			c.Count("scenario", "skipped-"+errClass(ferr))
+			c.Count("scenario", "refused-"+errClass(ferr))
+			// the bracket model needs a successful baseline; what still has to hold for a request the library refuses
+			// on its own: an error of a node callback (the EndEdit calls that follow the refusal included) is wrapped
+			// by the error the call returns
+			for k := 1; k <= len(free.Events); k++ {
+				rec, err := runOnce(k)
+				c.Evaluations++
+				var inj *refstore.InjectedError
+				if rec.Failed && (err == nil || !errors.As(err, &inj) || inj.K != k) {
+					what := "?"
+					if k-1 < len(rec.Events) {
+						what = rec.Events[k-1].String()
+					}
+					c.Violation(core.Replay{Kind: "property-failure", Class: "refused-error-not-wrapped-" + op, Summary: fmt.Sprintf("%s at %q, a request the library refuses (%v), with callback %d (%s) failing: the returned error does not wrap the callback's error (%v)", op, loc.path, ferr, k, what, err),
+						Input: map[string]interface{}{"yang": dc.yang, "op": op, "entry": loc.path, "source": gen.Canon(loc.kids, src0, false), "target": gen.Canon(dc.kids, tgt0, false), "fail_at": k, "failing_event": what, "returned_error": fmt.Sprint(err), "trace": decodeEvents(c12events(rec))}})
+				}
+			}
 			continue
 		}
 		K := len(free.Events)
